@@ -207,5 +207,88 @@ func runC11Cross(r *Report, rng *rand.Rand, thorough bool) {
 			r.Violate("enums_of_different_base_types_clash", strings.Join(problems, "; "), replay)
 		}
 	}
+	// enums declared in DIFFERENT positions of the document: component schemas, inline in an operation's parameter or
+	// request body, in a reusable parameter - clashes across those positions are resolved like clashes inside one
+	resp := map[string]any{"204": map[string]any{"description": "d"}}
+	positions := []struct {
+		name  string
+		doc   map[string]any
+		enums map[string]int // enum type -> number of values
+	}{
+		{"component enum and inline query-parameter enum share values",
+			map[string]any{"paths": map[string]any{"/pets": map[string]any{"get": map[string]any{"operationId": "listPets",
+				"parameters": []any{map[string]any{"name": "sort", "in": "query", "schema": map[string]any{"type": "string", "enum": []any{"asc", "desc"}}}}, "responses": resp}}},
+				"components": map[string]any{"schemas": map[string]any{"Order": map[string]any{"type": "string", "enum": []any{"asc", "desc", "none"}},
+					"Holder": map[string]any{"type": "object", "properties": map[string]any{"o": map[string]any{"$ref": "#/components/schemas/Order"}}}}}},
+			map[string]int{"Order": 3, "ListPetsParamsSort": 2}},
+		{"inline request-body enum value equal to a component type name",
+			map[string]any{"paths": map[string]any{"/things": map[string]any{"post": map[string]any{"operationId": "addThing",
+				"requestBody": map[string]any{"content": map[string]any{"application/json": map[string]any{"schema": map[string]any{"type": "object", "properties": map[string]any{
+					"kind": map[string]any{"type": "string", "enum": []any{"pet", "toy"}}, "pet": map[string]any{"$ref": "#/components/schemas/Pet"}}}}}}, "responses": resp}}},
+				"components": map[string]any{"schemas": map[string]any{"Pet": map[string]any{"type": "object", "properties": map[string]any{"id": map[string]any{"type": "string"}}}}}},
+			map[string]int{"AddThingJSONBodyKind": 2}},
+		{"reusable parameter with an inline enum, referenced by an operation",
+			map[string]any{"paths": map[string]any{"/pets": map[string]any{"get": map[string]any{"operationId": "listPets",
+				"parameters": []any{map[string]any{"$ref": "#/components/parameters/color"}}, "responses": resp}}},
+				"components": map[string]any{"parameters": map[string]any{"color": map[string]any{"name": "color", "in": "query", "schema": map[string]any{"type": "string", "enum": []any{"red", "green"}}}}}},
+			map[string]int{"Color": 2, "ListPetsParamsColor": 2}},
+	}
+	for _, ps := range positions {
+		ps.doc["openapi"] = "3.0.3"
+		ps.doc["info"] = map[string]any{"title": "e", "version": "1"}
+		spec, _ := json.Marshal(ps.doc)
+		cfg := codegen.Configuration{PackageName: "gen", Generate: codegen.GenerateOptions{Models: true, Client: true}}
+		cfg.OutputOptions.SkipPrune = true
+		replay := map[string]any{"spec": json.RawMessage(spec)}
+		r.Count("positions/"+ps.name, true)
+		r.Dist["family=cross-enum-positions"]++
+		code, err := generate(spec, cfg)
+		if err != nil {
+			r.Violate("generate_fails_on_enum/positions", ps.name+": "+trunc(err.Error(), 300), replay)
+			continue
+		}
+		p, err := parseGo(code)
+		if err != nil {
+			r.Violate("output_unparsable", err.Error(), replay)
+			continue
+		}
+		count := map[string]int{}
+		perType := map[string]int{}
+		for _, dd := range p.file.Decls {
+			gd, ok := dd.(*ast.GenDecl)
+			if !ok || gd.Tok != token.CONST {
+				continue
+			}
+			for _, sp := range gd.Specs {
+				vs := sp.(*ast.ValueSpec)
+				id, _ := vs.Type.(*ast.Ident)
+				for _, nm := range vs.Names {
+					count[nm.Name]++
+					if id != nil {
+						perType[id.Name]++
+					}
+				}
+			}
+		}
+		var problems []string
+		tn := p.typeNames()
+		for nm, c := range count {
+			if c > 1 {
+				problems = append(problems, fmt.Sprintf("constant %s declared %d times", nm, c))
+			}
+			if tn[nm] {
+				problems = append(problems, fmt.Sprintf("constant %s is also the name of a type", nm))
+			}
+		}
+		for et, want := range ps.enums {
+			if perType[et] != want {
+				problems = append(problems, fmt.Sprintf("enum %s has %d constants for %d values", et, perType[et], want))
+			}
+		}
+		if len(problems) > 0 {
+			sort.Strings(problems)
+			r.Violate("enums_in_different_positions_clash", ps.name+": "+strings.Join(problems, "; "), replay)
+		}
+	}
 	cases.WriteTo(r)
 }
